@@ -6150,3 +6150,98 @@ def gd3(m, run, rule='GD3.knot-vector-setters-accept-valid-vectors-only'):
             ci = m.classes[(mod, cname)]
             run.ob(rule, '%s.%s :: %d assignments' % (mod, cname, cnt), not bad, 'valid vectors are stored in their own direction, invalid ones rejected and not stored' if not bad else
                    '%s: %s   [%d of %d]' % (bad[0][0], bad[0][1], len(bad), cnt), 'geomdl/%s.py:%d in %s.%s' % (mod, ci.node.lineno, mod, cname))
+
+
+# ====================================================================================== C14: JSON files of shapes and containers, through the public functions
+def jr3(m, run, rule='JR3.json-file-round-trip-of-shapes-and-containers'):
+    """JR3: exchange.export_json followed by exchange.import_json, interpreted on a single rational volume, a container of two rational
+    surfaces (non-square, different from each other) and a container of three B-spline curves, all built by the real classes with exact
+    symbolic data; the file is kept in memory and json.dumps / json.loads are modelled as the function they are on plain data (tuples
+    become lists, keys strings): the import returns as many shapes as were exported, in order, each with the degrees, sizes, knot vectors,
+    homogeneous control points and delta of its source - and a delta given to import_json overrides the stored one for every shape"""
+    from .skel import Sym
+    from .poly import Poly
+    groups = (('a rational volume', [('NURBS', 'Volume', (1, 2, 1), (2, 3, 2))], None),
+              ('a container of two rational surfaces', [('NURBS', 'Surface', (2, 1), (3, 4)), ('NURBS', 'Surface', (1, 2), (2, 3))], 'SurfaceContainer'),
+              ('a container of three B-spline curves', [('BSpline', 'Curve', (2,), (4,)), ('BSpline', 'Curve', (1,), (3,)), ('BSpline', 'Curve', (3,), (5,))], 'CurveContainer'))
+    for what, specs, cont in groups:
+        for delta_arg in (None, 0.25):
+            key = 'exchange.export_json -> import_json :: %s%s' % (what, ', import with delta=%s' % delta_arg if delta_arg else '')
+            files = {}
+            ab = dict(STD_ABSTRACTED)
+            ab[('knotvector', 'normalize')] = Py(lambda sk, node, kv, *a, **k: [Ord(x.rank) for x in kv], 'knotvector.normalize')
+            ab[('_exchange', 'write_file')] = Py(lambda sk, node, name, content, **k: files.__setitem__(name, content) or True, 'write_file')
+            ab[('_exchange', 'read_file')] = Py(lambda sk, node, name, **k: files[name], 'read_file')
+            sk = SK(m, ab)
+            sk.exact = True
+            sk.construct = True
+            why = None
+
+            def setp(obj, name, value):
+                sk.call(m.lookup(obj._cls, name, 'setters'), [obj, value], {})
+
+            def getp(obj, name):
+                return sk.call(m.lookup(obj._cls, name, 'getters'), [obj], {})
+            try:
+                srcs = []
+                for e_, (mod, cname, degs, sizes) in enumerate(specs):
+                    pdim = len(degs)
+                    total = 1
+                    for s_ in sizes:
+                        total *= s_
+                    sfx = [''] if pdim == 1 else ['_' + 'uvw'[d] for d in range(pdim)]
+                    o_ = sk.apply(('class', (mod, cname)), [], {}, None)
+                    for d in range(pdim):
+                        setp(o_, 'degree' + sfx[d], degs[d])
+                    hd = 4 if mod == 'NURBS' else 3
+                    P = [[Poly.atom('S%dP%d_%d' % (e_, i, c)) for c in range(hd)] for i in range(total)]
+                    sk.call(m.lookup(o_._cls, 'set_ctrlpts', 'methods'), [o_, [[Sym(x) for x in r] for r in P]] + (list(sizes) if pdim > 1 else []), {})
+                    ranks = [[100 * e_ + 10 * d + r for r in [0] * (p + 1) + list(range(1, n - p)) + [n - p] * (p + 1)] for d, (p, n) in enumerate(zip(degs, sizes))]
+                    for d in range(pdim):
+                        setp(o_, 'knotvector' + sfx[d], [Ord(r) for r in ranks[d]])
+                    setp(o_, 'delta', 0.125 / (e_ + 1))
+                    Pw = [r if hd == 4 else r + [Poly.const(1)] for r in P]
+                    srcs.append((o_, degs, sizes, ranks, Pw, getp(o_, 'delta')))
+                arg = srcs[0][0] if cont is None else sk.apply(('class', ('multi', cont)), [x[0] for x in srcs], {}, None)
+                sk.call(m.func('exchange.export_json'), [arg, 'shapes.json'], {})
+                if list(files) != ['shapes.json']:
+                    why = 'the exporter writes %r' % sorted(files)
+                else:
+                    back = sk.call(m.func('exchange.import_json'), ['shapes.json'], {'delta': delta_arg} if delta_arg else {})
+                    if not isinstance(back, list) or len(back) != len(srcs):
+                        why = '%r shapes come back, %d were exported' % (len(back) if isinstance(back, list) else back, len(srcs))
+                    for e_, (src, degs, sizes, ranks, Pw, dlt) in enumerate(srcs if why is None else []):
+                        b_ = back[e_]
+                        a_ = b_._a if isinstance(b_, Bag) else {}
+                        pre = 'shape %d: ' % e_ if len(srcs) > 1 else ''
+                        if not isinstance(b_, Bag) or b_ is src:
+                            why = pre + 'not a new shape'
+                        elif list(a_.get('_degree', [])) != list(degs) or list(a_.get('_control_points_size', [])) != list(sizes):
+                            why = pre + 'degrees / sizes come back as %s / %s, exported %s / %s' % (list(a_.get('_degree', [])), list(a_.get('_control_points_size', [])), list(degs), list(sizes))
+                        elif [[getattr(k, 'rank', None) for k in kv] for kv in a_.get('_knot_vector', [])] != ranks:
+                            why = pre + 'the knot vectors do not come back (each shape its own, each direction its own)'
+                        else:
+                            cp = a_.get('_control_points', [])
+                            if len(cp) != len(Pw):
+                                why = pre + '%d control points come back, %d were exported' % (len(cp), len(Pw))
+                            for i in range(len(Pw) if why is None else 0):
+                                for c in range(4):
+                                    s_ = _as_sym(cp[i][c]) if len(cp[i]) > c else None
+                                    if s_ is None or not s_.same(Sym(Pw[i][c])):
+                                        why = pre + 'homogeneous control point %d slot %d comes back as %r, exported %r' % (i, c, cp[i][c] if len(cp[i]) > c else None, Pw[i][c])
+                                        break
+                                if why:
+                                    break
+                            if why is None:
+                                want = dlt if not delta_arg else tuple([delta_arg] * len(degs)) if isinstance(dlt, tuple) else delta_arg
+                                got = getp(b_, 'delta')
+                                if got != want:
+                                    why = pre + 'delta is %r after the import, expected %r (%s)' % (got, want, 'the value given to import_json' if delta_arg else 'the exported one')
+                        if why:
+                            break
+            except Violation as v:
+                why = '%s %s' % (v.msg, v.where())
+            except Unsupported as ex:
+                raise AnalysisError('%s: interpreter met an unsupported construct: %s' % (key, ex))
+            fe = m.func('exchange.export_json')
+            run.ob(rule, key, why is None, 'every shape comes back, in order, with its own definition and delta' if why is None else why, 'geomdl/exchange.py:%d in %s' % (fe.node.lineno, fe.key))
